@@ -325,7 +325,7 @@ pub async fn build_block_ex(
         // attacker and victim must be different keys, else some edits are no-ops
         let vic = if vic == att { (att + 1) % 4 } else { vic };
         let (spent, expired) = spent_and_expired(node, pid + 1);
-        let ctx = EditCtx { node, attacker: att, victim: vic, for_block_id: pid + 1, ts: ts + 77, spent: &spent, expired: &expired };
+        let ctx = EditCtx { node, attacker: att, victim: vic, for_block_id: pid + 1, ts: ts + 77, spent: &spent, expired: &expired, offchain: &[] };
         if let Some(bad) = edited_tx(edit, &ctx) {
             // keep honest txs that do not collide with the bad one's inputs
             let bad_inputs: BTreeSet<SaitoUTXOSetKey> = bad.from.iter().filter(|s| s.amount > 0).map(|s| s.get_utxoset_key()).collect();
@@ -505,12 +505,14 @@ pub fn arb_ncfg() -> impl Strategy<Value = NodeCfg> {
         prop_oneof![2 => Just(4u64), 2 => Just(5u64), 3 => Just(6u64), 2 => Just(8u64), 1 => Just(12u64), 2 => Just(100u64)],
         Just(100u64),
         any::<bool>(),
+        prop_oneof![2 => Just(2u64), 1 => Just(3u64), 3 => Just(8u64)],
     )
-        .prop_map(|(gp, heartbeat, loading_completed)| NodeCfg {
+        .prop_map(|(gp, heartbeat, loading_completed, prune)| NodeCfg {
             gp,
             heartbeat,
             social_stake: 0,
             loading_completed,
+            prune,
         })
 }
 
